@@ -25,7 +25,8 @@ RULE = ("simulated elections driven through consistent_sampling -> prep_comparis
 REQUIRED = ["contract:Assertion.mvrs_to_data", "contract:Assertion.set_p_values", "contract:Assertion.set_margin_from_cvrs",
             "data_values_checked", "u_checked:POLLING", "u_checked:CARD_COMPARISON", "u_checked:ONEAUDIT",
             "datum_equal_to_u_seen", "datum_zero_seen", "style_filter_checked", "cards_filtered_out_by_style",
-            "test_u_checked", "positive_margin_assertions", "supermajority_u_assorter_not_1"]
+            "test_u_checked", "positive_margin_assertions", "supermajority_u_assorter_not_1",
+            "stratum:uniform_pool_nonrepresentable_bound"]
 ASSUMPTIONS = ["sample_threshold has been set by a draw (n_c >= 1) before mvrs_to_data is called under style",
                "the bound clause is asserted for every margin the simulator produces (also non-positive ones: the data are "
                "still inside [0,u])"]
@@ -61,8 +62,10 @@ def post_mvrs_to_data(rec, result, a, k, old):
         return
     d = np.asarray(d, dtype=float)
     rec.count("data_values_checked", int(d.size))
-    if d.size and (np.any(np.isnan(d)) or d.min() < -1e-12 or d.max() > u * (1 + 1e-12)):
-        j = int(np.argmax(np.isnan(d) | (d < -1e-12) | (d > u * (1 + 1e-12))))
+    # exact bounds: every operation on the way is monotone under IEEE rounding (assort <= u_a, pool means clamped to
+    # u_a, one division by the same positive denominator that defines u), and the tests themselves reject x < 0 or x > u
+    if d.size and (np.any(np.isnan(d)) or d.min() < 0 or d.max() > u):
+        j = int(np.argmax(np.isnan(d) | (d < 0) | (d > u)))
         rec.violation("c06.data", f"{at}:datum_outside_0_u", {"datum": float(d[j]), "u": u, "index": j, "margin": self.margin,
                                                                "assorter_upper_bound": ua}, case)
         return
@@ -176,6 +179,9 @@ def run_shard(spec, rec):
     rng = random.Random(f"c06-{spec['seed']}-{spec['shard']}")
     for i in range(spec["n"]):
         es = E.gen_spec(rng, error_rate=rng.choice((0.2, 0.5, 1.0)))
+        if i % 8 == 7:
+            es = E.force_uniform_pool(rng, es)
+            rec.count("stratum:uniform_pool_nonrepresentable_bound")
         es["_sizes_seed"] = rng.randrange(10 ** 9)
         run_case(es, rec)
 
